@@ -392,3 +392,30 @@ package table
 //@   assert[checksum-length] before call U32ToBytes#2 : arg0 == uint32(len(bd.checksum))
 //@   assert[block-up-to-its-end] before call copy#1 : len(arg1) == bl.end
 
+// ---- opening a table and loading a block (C18) ----
+
+// The table's smallest key is the first key of its first block and its biggest key is the key
+// a reverse iterator starts at; both are copies.
+//@ func (*Table).initBiggestAndSmallest
+//@   props C18 C14
+//@   light
+//@   assert[smallest-from-first-block] before call Copy#1 : arg0 == ret(KeyBytes#1) && ret1(initIndex#1) == nil
+//@   assert[biggest-from-reverse-iterator] before call NewIterator : arg1 == REVERSED | NOCACHE
+//@   assert[biggest-is-last-key] before call Copy#2 : arg0 == ret(Key#1) && called(Rewind#1) && ret(Valid#1)
+//@   assert[recorded] before call Close : t.smallest == ret(Copy#1) && (called(Copy#2) ==> t.biggest == ret(Copy#2))
+
+// Table.block: block idx is read at the offset and length the index records for it, decrypted
+// and decompressed when the table says so; the trailer is parsed from the end: checksum length,
+// checksum, number of entries, entry offsets; the checksum is verified when the mode asks for it,
+// over the data without checksum and checksum length.
+//@ func (*Table).block
+//@   props C18 C23
+//@   light
+//@   assert[offset-of-block-idx] before call offsets : arg2 == idx && idx < ret(offsetsLength#1)
+//@   assert[read-as-indexed] before call read : arg1 == blk.offset && blk.offset == int(ret(Offset#1)) && arg2 == int(ret(Len#1))
+//@   assert[decrypt-when-keyed] before call decrypt : ret(shouldDecrypt#1) && arg1 == blk.data
+//@   assert[decompress-the-block] before call decompress : arg1 == blk
+//@   assert[checksum-verified-when-asked] before call incrRef#2 : (t.opt.ChkMode == options.OnBlockRead || t.opt.ChkMode == options.OnTableAndBlockRead) ==> called(verifyCheckSum#1) && ret(verifyCheckSum#1) == nil
+//@   assert[trailer-from-the-end] before call BytesToU32#1 : len(arg0) == 4
+//@   assert[out-of-range-block] before return#1 : result0 == nil && result1 != nil && idx >= ret(offsetsLength#1)
+
